@@ -69,6 +69,7 @@ def main(argv=None):
     ap.add_argument("--jobs", type=int, default=int(os.environ.get("VERIF_JOBS", "0")) or cpu_budget())
     ap.add_argument("--only", default=None, help="comma separated harness names")
     ap.add_argument("--max-skel", type=int, default=0)
+    ap.add_argument("--skel-filter", default=None, help="only skeletons whose repr contains this text (debugging)")
     ap.add_argument("--no-evidence", action="store_true")
     a = ap.parse_args(argv)
     pid = a.pid
@@ -84,6 +85,8 @@ def main(argv=None):
     hs = [h for h in mod.HARNESSES if a.only is None or h.name in a.only.split(",")]
     for h in hs:
         sk = list(h.skeletons(tier, seed))
+        if a.skel_filter:
+            sk = [k for k in sk if a.skel_filter in repr(k)]
         if a.max_skel:
             sk = sk[:a.max_skel]
         for s in sk:
@@ -156,7 +159,7 @@ def main(argv=None):
     if (inc or mism) and code == 0:
         code = 2
     for r, m in mism[:5]:
-        print(f"HARNESS-ERROR property={pid} witness mismatch harness={r['harness']} skel={r['skel']} {json.dumps(m, default=str)[:700]}")
+        print(f"HARNESS-ERROR property={pid} witness mismatch harness={r['harness']} skel={r['skel']} {json.dumps(m, default=str)[:int(os.environ.get('VERIF_MISMATCH_CHARS', '700'))]}")
     for r, i in inc[:8]:
         print(f"INCONCLUSIVE property={pid} harness={r['harness']} skel={r['skel']} reason={i}")
     wall = time.time() - t0
